@@ -1,0 +1,47 @@
+//go:build verif
+
+// Contracts for package mapr/server (comment-only; read by /verif/govc).
+
+package server
+
+//@ type Aggregate invariant [made] self.done != nil && self.NextLinesCh != nil && self.serialize != nil && self.query != nil && !isnil(self.parser)
+//@ type Aggregate chaninv linesCh [line-wellformed] elem != nil && elem.Content != nil
+//@ type Aggregate chaninv NextLinesCh [carries-lines] carries(elem, "line-wellformed")
+
+//@ func NewAggregate
+//@   ensures [nonnil] implies(isnil(result1), result0 != nil)
+//@ func (*Aggregate).nextLine
+//@   assigns a.linesCh, *a.linesCh, *a.NextLinesCh
+//@   ensures [line] implies(result1, result0 != nil && result0.Content != nil)
+//@ func (*Aggregate).fieldFromLine
+//@   requires [line] line != nil && line.Content != nil
+//@   requires [fieldsCh] fieldsCh != nil
+//@   chaninv fieldsCh [fields-nonnil] elem != nil
+//@ func (*Aggregate).aggregate
+//@   requires [group] group != nil && fields != nil
+//@ func (*Aggregate).Start$1
+//@   requires [captured] a != nil && cancel != nil && myCtx != nil
+//@ func (*Aggregate).fieldsFromLines
+//@   chaninv fieldsCh [fields-nonnil] elem != nil
+//@   ensures [carries] carries(result, "fields-nonnil")
+//@ func (*Aggregate).fieldsFromLines$1
+//@   requires [captured] a != nil && ctx != nil && fieldsCh != nil
+//@   chaninv fieldsCh [fields-nonnil] elem != nil
+//@ func (*Aggregate).setAdditionalFields
+//@   chaninv fieldsCh [fields-nonnil] elem != nil
+//@   chaninv newFieldsCh [fields-nonnil] elem != nil
+//@   ensures [carries] carries(result, "fields-nonnil")
+//@ func (*Aggregate).setAdditionalFields$1
+//@   requires [captured] a != nil && ctx != nil && newFieldsCh != nil
+//@   chaninv fieldsCh [fields-nonnil] elem != nil
+//@   chaninv newFieldsCh [fields-nonnil] elem != nil
+//@ func (*Aggregate).aggregateAndSerialize
+//@   chaninv fieldsCh [fields-nonnil] elem != nil
+//@   loop 1 invariant [group] group != nil
+//@ func (*Aggregate).nextLine$1
+//@   requires [captured] a != nil
+//@   chaninv oldLinesCh [line-wellformed] elem != nil && elem.Content != nil
+//@ func (*Aggregate).aggregateAndSerialize$1
+//@   requires [captured] group != nil && ctx != nil
+//@   assigns &group, *maprMessages
+//@   ensures [group] group != nil
